@@ -582,7 +582,10 @@ def check_oracle(ctx: Ctx):
     worst = {}
     for case in cases:
         kind = case["kind"]
-        res = ORACLES[kind](case)
+        try:
+            res = ORACLES[kind](case)
+        except Exception as e:  # noqa  (the implementation raising on a valid input is a failure of the property)
+            res = ("%s-raises" % kind, "%s check: the implementation raised %r on case %s" % (kind, e, _public(case)), {})
         size = case.get("n") or case.get("N") or case.get("size")
         par = "even" if size % 2 == 0 else "odd"
         if kind == "filter":
